@@ -2,38 +2,9 @@
 use refmodel::methods as rm;
 use refmodel::Q;
 
-#[derive(Clone)]
-pub struct SmmRef(pub rm::Sel);
-impl rm::RefVV for SmmRef {
-	fn next(&mut self, x: f64) -> Q {
-		self.0.push(x);
-		Q::exact(self.0.median())
-	}
-	fn box_clone(&self) -> Box<dyn rm::RefVV> {
-		Box::new(self.clone())
-	}
-}
-
 /// reference of a moving-average kind of the `MA` constructor ("sma", "wma", ...)
 pub fn ma_ref(kind: &str, n: usize, v0: f64) -> Box<dyn rm::RefVV> {
-	match kind {
-		"sma" => Box::new(rm::sma(n, v0)),
-		"wma" => Box::new(rm::wma(n, v0)),
-		"swma" => Box::new(rm::swma(n, v0)),
-		"trima" => Box::new(rm::Trima::new(n, v0)),
-		"hma" => Box::new(rm::Hma::new(n, v0)),
-		"linreg" => Box::new(rm::lin_reg(n, v0)),
-		"ema" => Box::new(rm::Ema::new(n, v0)),
-		"rma" => Box::new(rm::Ema::rma(n, v0)),
-		"wsma" => Box::new(rm::Ema::wsma(n, v0)),
-		"dma" => Box::new(rm::EmaCascade::new(rm::CascadeKind::Dma, n, v0)),
-		"tma" => Box::new(rm::EmaCascade::new(rm::CascadeKind::Tma, n, v0)),
-		"dema" => Box::new(rm::EmaCascade::new(rm::CascadeKind::Dema, n, v0)),
-		"tema" => Box::new(rm::EmaCascade::new(rm::CascadeKind::Tema, n, v0)),
-		"smm" => Box::new(SmmRef(rm::Sel::new(n, v0))),
-		"vidya" => Box::new(rm::Vidya::new(n, v0)),
-		_ => panic!("unknown MA kind {kind}"),
-	}
+	rm::ma_q(kind, n, Q::exact(v0))
 }
 
 /// minimal length a kind accepts
